@@ -1,2 +1,4 @@
+pub mod chaingen;
+pub mod chainsim;
 pub mod kv06;
 pub mod pfx07;
